@@ -50,6 +50,27 @@ def run(tier, seed, replay=None):
     for _ in range(n):
         p, mode = g.overlap()
         plans.append(p)
+    # function level: the macro's own overlap test (`is_overlapping`, every ordered pair of rows) must agree with its Lean model in
+    # BOTH block orders — a later row that generalises an earlier one is the only witness of an asymmetric pair loop, and rustc's
+    # coherence check hides it in trait mode (seeded change C04e)
+    try:
+        import copy as _copy
+        from . import groupcorr
+        exe = C.build_hook()
+        both = []
+        for p_ in plans[: (40 if tier == "quick" else 600)]:
+            both.append(p_)
+            q_ = _copy.deepcopy(p_)
+            q_.block_order = list(reversed(range(len(q_.blocks()))))
+            both.append(q_)
+        for mode_ in ["general", "wild"] * (3 if tier == "quick" else 40):
+            p_, _m = g.overlap(mode=mode_)
+            q_ = _copy.deepcopy(p_)
+            q_.block_order = list(reversed(range(len(q_.blocks()))))
+            both += [p_, q_]
+        groupcorr.compare(rep, exe, [(p_.invocation_text(), [p_.block_text(bi) for bi in p_.order()]) for p_ in both])
+    except C.BuildError as e:
+        rep.broken.append(str(e)[:2000])
     evs = PC.evaluate(so, plans)
     for ev in evs:
         plan = ev.plan
